@@ -491,3 +491,9 @@ def r4(fx):
         want_n = 25 * (len(cs) ** 2 - 3)
         yield ob(f'alignment pattern as placed in version {v} (size {n}): the ISO 5x5 pattern, {want_n} cells in all', got == [list(r) for r in iso.ALIGNMENT] and placed == want_n, fn,
                  got=(got, placed), want=(iso.ALIGNMENT, want_n))
+
+
+@rule('C02', 'R10', 35, 'the symbol assembled from a known final message is, cell by cell, the ISO symbol: function patterns, placement, mask of the symbol kind, format and version words (C06.R10)')
+def r10(fx):
+    from . import p06
+    yield from p06.assembled_symbols(fx)
